@@ -14,7 +14,10 @@ CONSTANTS MaxStmts, MaxRows, MaxFlush, MaxCrash, MaxEvict, EmitOn,
           BadMode,     \* which invalid rows INSERT/UPDATE may carry: "none", "type-size", "count-range", "all"
           Wheres,      \* WHERE clauses of UPDATE / DELETE (see Store!Match): 0, values, 100 + k for `a >= k`
           DmlTables,   \* tables that INSERT/UPDATE/DELETE address (a subset of Tables, to focus a configuration)
-          Ops          \* statement kinds explored: subset of {"create", "insert", "update", "delete"}
+          Ops,         \* statement kinds explored: subset of {"create", "insert", "update", "delete"}
+          ScriptRows,  \* <<>>: any number of rows per INSERT; otherwise the k-th statement, if an INSERT, has a row count in ScriptRows[k]
+          Script       \* <<>>: any statement at any position; otherwise the k-th statement of a path is of a kind in Script[k]
+                       \* (a narrow corridor through long histories: row counts, flush and crash points still vary freely)
 
 VARIABLES cnt, hist,
           fails    \* kinds of statements refused so far on this path.  A refused statement changes nothing in the specification,
@@ -41,16 +44,31 @@ MCInit == Init /\ cnt = [st |-> 0, fl |-> 0, cr |-> 0, ev |-> 0] /\ hist = <<>> 
 Refused(kind) == fails' = IF out'.k = "error" THEN fails \cup {kind} ELSE fails
 
 \* nothing further is explored after a known-defective situation: what follows it is not judged anyway
+\* scripts (TLC's configuration files cannot spell sequences: a configuration says `Script <- ScriptX`)
+ScriptNone == <<>>
+\* a table grown to two leaves and flushed; then, in one flush interval: a row inserted, every row updated, and an insert
+\* that splits the right-most leaf and moves that row to the new page
+ScriptInsUpdSplit == <<{"create"}, {"insert"}, {"insert"}, {"insert"}, {"update"}, {"insert"}>>
+\* the same with a delete in the interval
+ScriptInsDelSplit == <<{"create"}, {"insert"}, {"insert"}, {"insert"}, {"delete"}, {"insert"}, {"insert"}>>
+\* two tables growing in turns, then updates and deletes
+ScriptTwoTables == <<{"create"}, {"create"}, {"insert"}, {"insert"}, {"insert"}, {"insert"}, {"update", "delete"}, {"insert"}>>
+
 StmtOK == pc.k = "idle" /\ cnt.st < MaxStmts /\ taint = {}
+Scripted(kind) == Script = <<>> \/ (cnt.st < Len(Script) /\ kind \in Script[cnt.st + 1])
+ScriptedRows(n) == ScriptRows = <<>> \/ (cnt.st < Len(ScriptRows) /\ n \in ScriptRows[cnt.st + 1])
+RowsNone == <<>>
+RowsInsUpdSplit == <<{0}, {3}, {1}, {1}, {0}, {1}>>
+RowsInsDelSplit == <<{0}, {3}, {1}, {1}, {0}, {1}, {1}>>
 
 MCNext ==
-  \/ /\ StmtOK /\ "create" \in Ops /\ \E t \in Tables, bad \in (IF BadVals = {} THEN {FALSE} ELSE BOOLEAN) :
+  \/ /\ StmtOK /\ "create" \in Ops /\ Scripted("create") /\ \E t \in Tables, bad \in (IF BadVals = {} THEN {FALSE} ELSE BOOLEAN) :
           CreateStmt(t, bad) /\ H([a |-> "create", t |-> t, bad |-> bad]) /\ Bump("st") /\ Refused(<<IF bad THEN "create-bad" ELSE "create", t>>)
-  \/ /\ StmtOK /\ "insert" \in Ops /\ \E t \in DmlTables, rows \in RowSeqs :
-          OneBad(rows) /\ InsertStmt(t, rows) /\ H([a |-> "insert", t |-> t, rows |-> rows]) /\ Bump("st") /\ Refused(<<"insert", t>>)
-  \/ /\ StmtOK /\ "update" \in Ops /\ \E t \in DmlTables, w \in Wheres, v \in (Vals \ {9}) \cup (BadVals \cap {-1, -2}) :
+  \/ /\ StmtOK /\ "insert" \in Ops /\ Scripted("insert") /\ \E t \in DmlTables, rows \in RowSeqs :
+          OneBad(rows) /\ ScriptedRows(Len(rows)) /\ InsertStmt(t, rows) /\ H([a |-> "insert", t |-> t, rows |-> rows]) /\ Bump("st") /\ Refused(<<"insert", t>>)
+  \/ /\ StmtOK /\ "update" \in Ops /\ Scripted("update") /\ \E t \in DmlTables, w \in Wheres, v \in (Vals \ {9}) \cup (BadVals \cap {-1, -2}) :
           UpdateStmt(t, w, v) /\ H([a |-> "update", t |-> t, w |-> w, v |-> v]) /\ Bump("st") /\ Refused(<<"update", t>>)
-  \/ /\ StmtOK /\ "delete" \in Ops /\ \E t \in DmlTables, w \in Wheres :
+  \/ /\ StmtOK /\ "delete" \in Ops /\ Scripted("delete") /\ \E t \in DmlTables, w \in Wheres :
           DeleteStmt(t, w) /\ H([a |-> "delete", t |-> t, w |-> w]) /\ Bump("st") /\ Refused(<<"delete", t>>)
   \/ /\ cnt.fl < MaxFlush /\ taint = {} /\ (cache # <<>> \/ dhdr # mhdr)
      /\ FlushBegin /\ H([a |-> "flush"]) /\ Bump("fl") /\ UNCHANGED fails
